@@ -746,11 +746,24 @@ def torch_function_of_numeric_constant(case):
     numeric arguments reaches torch.exp/... as a Python number: TypeError 'argument must be Tensor' when called"""
     if case.get("cfg", {}).get("backend") != "torch":
         return False
+    # algebraic variables whose right-hand side is numerically constant (alpha - alpha) are plain Python numbers in the
+    # generated code, too: a call whose arguments depend on nothing else is affected in the same way
+    spec = case.get("spec") or {}
+    const_alg = set()
+    for od in (spec.get("ops") or {}).values():
+        kinds = {v[0]: v[1] for v in od["vars"]}
+        for lhs, de, ast, *_ in od["eqs"]:
+            if not de and kinds.get(lhs) == "alg" and _is_constant_expr(ast):
+                const_alg.add(lhs)
+    from . import expr as E
+
+    def effectively_constant(a):
+        return _is_constant_expr(a) or (E.variables(a) and set(E.variables(a)) <= const_alg)
     for ast in _all_asts(case):
         if _uses_const(ast, "E"):
             return True
         for n in _walk(ast):
-            if n[0] == "call" and all(_is_constant_expr(a) for a in n[2:]):
+            if n[0] == "call" and all(effectively_constant(a) for a in n[2:]):
                 return True
     return False
 
